@@ -112,7 +112,7 @@ def build(job):
     if workload.klass == "confluent" and not any((sc.get("kind") == "jump") for st_ in workload.stages for _n, sc in (st_.tasks or [])):
         mons.append(SeenDataMonitor(_ledger))
     ex = Explorer(w, workload, mons, job.get("budget"), max_states=job.get("max_states", 150000),
-                  time_cap=job.get("time_cap", 1500), audit_bisim=job.get("bisim", False))
+                  time_cap=job.get("time_cap", 600), audit_bisim=job.get("bisim", False))
     ex._adm = adm
     return ex
 
